@@ -34,7 +34,7 @@ L1NothingLeft == R.retain \/ R.left = <<>>
 L1RootLast == R.rootlast
 \* the host process is untouched and its other variables are invisible to scripts
 L1HostUnchanged == R.host = <<>>
-L1HostVarsInvisible == ~R.canary
+L1HostVarsInvisible == ~R.canary /\ R.leaked = <<>>
 L1Terminates == R.end = "done" /\ \A n \in Names : R.verdict[n] \in {"pass", "fail", "skip"}
 
 Bad(name) == PrintT(<<"BAD", name, t>>)
